@@ -269,6 +269,8 @@ def build_kernlib(name, repo=None, flavour="rel"):
             for fn in sorted(files):
                 if fn.endswith((".h", ".hpp", ".cpp", ".c")) and not fn.startswith("_geometry"):
                     dep.append(_read(os.path.join(root, fn)))
+    if flavour == "mc":
+        dep.append(_read(os.path.join(VERIF, "vlib", "sched", "sched.c")))
     key = _sha(flavour, " ".join(flags), *dep)
     outdir = os.path.join(CACHE, "kern")
     os.makedirs(outdir, exist_ok=True)
@@ -285,9 +287,15 @@ def build_kernlib(name, repo=None, flavour="rel"):
             sobj = os.path.join(outdir, "sched_%s.o" % _sha(_read(extra[0]))[:16])
             if not os.path.exists(sobj):
                 _run(["gcc", "-c", "-O1", "-g", "-fPIC", extra[0], "-o", sobj], repo)
-            cmd = ["g++", "-shared", "-o", tmp, src, sobj] + flags + ["-I" + d for d in incdirs] + ["-w"]
+            # compile with the instrumentation, link WITHOUT -fsanitize/-fopenmp: libtsan and libgomp are replaced
+            # by the scheduler runtime
+            kobj = tmp + ".o"
+            _run(["g++", "-c", src, "-o", kobj] + flags + ["-I" + d for d in incdirs] + ["-w"], repo)
+            cmd = ["g++", "-shared", "-o", tmp, kobj, sobj]
         _run(cmd, repo)
         os.replace(tmp, so)
+        if os.path.exists(tmp + ".o"):
+            os.remove(tmp + ".o")
         # prune older variants of the same lib/flavour
         for f in os.listdir(outdir):
             if f.startswith("%s_%s_" % (name, flavour)) and os.path.join(outdir, f) != so:
